@@ -62,6 +62,9 @@ MUTANTS += [
     ('revert-c18-int-matcher-inf', ['C18'], MA, "            try:\n                int_value = int(arg.value)\n            except (OverflowError, ValueError): # inf and nan are not integers\n                return False\n            return arg.value == int_value and self.wrapped.matches(int_value)",
      "            return arg.value == int(arg.value) and self.wrapped.matches(int(arg.value))"),
     ('revert-c18-connection-silent', ['C18'], CT, "        if not self.connection_list.connections():\n            self.out.show('No connections yet')\n", ""),
+    ('revert-c14-unseen-generation', ['C14'], MA, "generation = obj.generation if obj.generation is not None else -1", "generation = obj.generation if obj.generation is not None else 0"),
+    ('revert-c04-arrival-connection-show', ['C04'], 'core/wl/message.py', "        conn = self.obj.connection if self.obj.connection is not None else self.connection\n", "        conn = self.obj.connection\n"),
+    ('revert-c04-arrival-connection-match', ['C14', 'C06', 'C05'], MA, "        conn = message.obj.connection if message.obj.connection is not None else message.connection\n", "        conn = message.obj.connection\n"),
     ('revert-c13-closed-order', ['C13'], P, "            self.known_connections[conn_id] = None\n", "            self.known_connections[conn_id] = None\n            self.known_connections = dict.fromkeys(set(self.known_connections))\n"),
     ('revert-c18-pipe-strict-stdin', ['C18', 'C13'], 'main.py', "sys.stdin.reconfigure(newline=None, errors='replace')", "sys.stdin.reconfigure(newline=None)"),
     ('revert-c18-undecodable-file', ['C18'], 'main.py', "open(file_path, errors='replace')", "open(file_path)"),
